@@ -362,6 +362,24 @@ func runC04(p *core.Prog, r *core.Report) {
 			}
 		}
 		r.Check(okSrc, "C04.R4", "newGate/start", "the gate block is the request's LinearGateBlockNum", "startBlockNum from another source", p.Pos(ng.Pos()))
+		// the gate sees the step the block is processed with (after the final-blocks-only rewrite)
+		pb := p.Func(pkgPipe, "Pipeline.ProcessBlock")
+		r.Touch(core.FuncName(pb))
+		gp := core.FindInstrs(pb, core.IsCallTo(p.FuncObj(pkgPipe, "gate.processBlock")))
+		pp := core.FindInstrs(pb, core.IsCallTo(p.FuncObj(pkgPipe, "Pipeline.processBlock")))
+		okStep := len(gp) == 1 && len(pp) == 1
+		if okStep {
+			ga := gp[0].(ssa.CallInstruction).Common().Args
+			pa := pp[0].(ssa.CallInstruction).Common().Args
+			gStep, pStep := ga[len(ga)-1], pa[len(pa)-2]
+			okStep = gStep == pStep
+		}
+		r.Check(okStep, "C04.R4", "ProcessBlock/gate-step", "the gate is driven with the same step value the block is then processed with (an irreversible step rewritten to new-irreversible must open the gate too)", "gate.processBlock and Pipeline.processBlock receive different step values", p.Pos(pb.Pos()))
+		// the block number given to the gate is the block's own number
+		if len(gp) == 1 {
+			src := core.Trace(gp[0].(ssa.CallInstruction).Common().Args[1], 0)
+			r.Check(hasFieldNamed(src, "Number"), "C04.R4", "ProcessBlock/gate-block", "the gate is driven with the processed block's number", "other value", p.Pos(gp[0].Pos()))
+		}
 		// passed is monotone: only set to true
 		g := p.Named(pkgPipe, "gate")
 		passed := core.FieldOf(g, "passed")
@@ -460,7 +478,7 @@ func runC04(p *core.Prog, r *core.Report) {
 	r.MinInstances("C04.R1", 9)
 	r.MinInstances("C04.R2", 5)
 	r.MinInstances("C04.R3", 4)
-	r.MinInstances("C04.R4", 5)
+	r.MinInstances("C04.R4", 7)
 	r.MinInstances("C04.R5", 8)
 }
 
